@@ -5,6 +5,7 @@ package main
 
 import (
 	"fmt"
+	"go/types"
 	"strings"
 
 	"golang.org/x/tools/go/ssa"
@@ -16,12 +17,14 @@ const pkgGov = "ctrlers/gov"
 const pkgProp = "ctrlers/gov/proposal"
 
 func checkC15(w *World, r *Report) {
-	r.Explanation = "Structural clause of C15: (Gv-1) every success path of a proposal validation passes the guards: receiver is the zero address, sender is a current validator, payload type, no duplicate key in the exec-selected overlay, start > current height, min <= period <= max (governance limits), no overflow of start+period, applying height >= end + lazy-applying blocks, at least one option, and parseable options for parameter proposals; (Gv-2) every success path of a vote validation passes: zero receiver, payload type, the proposal exists in the exec-selected overlay, sender is one of its recorded voters, 0 <= choice < number of options, start <= height <= end; (Gv-3) a proposal's voters are the current validators with their current power, its total is their sum, majority = total x 2 / 3, end = start + period, a vote cancels the voter's previous vote before counting the new one with the recorded power; (Gv-4) a proposal leaves voting only when end < height, is frozen only if the top option (descending sort) holds at least the majority power, is applied only when applying height <= height, the winning option is merged with the current parameters, recorded and handed to Commit, which installs it; (Gv-5) MergeGovParams treats every parameter field, and the JSON/proto codecs cover every field."
+	r.Explanation = "Structural clause of C15: (Gv-1) every success path of a proposal validation passes the guards: receiver is the zero address, sender is a current validator, payload type, no duplicate key in the exec-selected overlay, start > current height, min <= period <= max (governance limits), no overflow of start+period, applying height >= end + lazy-applying blocks, at least one option, and parseable options for parameter proposals; (Gv-2) every success path of a vote validation passes: zero receiver, payload type, the proposal exists in the exec-selected overlay, sender is one of its recorded voters, 0 <= choice < number of options, start <= height <= end; (Gv-3) a proposal's voters are the current validators with their current power, its total is their sum, majority = total x 2 / 3, end = start + period, a vote cancels the voter's previous vote before counting the new one with the recorded power; (Gv-4) a proposal leaves voting only when end < height, is frozen only if the top option (descending sort) holds at least the majority power, is applied only when applying height <= height, the winning option is merged with the current parameters, recorded and handed to Commit, which installs it; (Gv-5) MergeGovParams treats every parameter field, and the JSON/proto codecs cover every field; (Gv-6) tally integrity: votes name options by index and the winner is decided once, so GovProposal.MajorOption and the order of GovProposal.Options are written only by the constructor and by updateMajorOption, which is called only through UpdateMajorOption from the freeze scan (after the window has closed); no other function sorts or replaces elements of an option list."
 	r.NotCovered = "tallies over vote histories; two proposals applied in one block; JSON parsing details of the option documents; powerOrderVoteOptions ties (two options cannot both reach 2/3)."
 	gv12(w, r)
 	gv3(w, r)
 	gv4(w, r)
 	gv5(w, r)
+	gv6(w, r)
+	r.Floor("Gv-6", 6, "tally integrity")
 	r.Floor("Gv-1", 9, "proposal guards")
 	r.Floor("Gv-2", 7, "voting guards")
 	r.Floor("Gv-3", 6, "snapshot")
@@ -269,6 +272,86 @@ func gv4(w *World, r *Report) {
 			o.Key = "Gv-4:" + strings.TrimPrefix(o.Key, "R-2:")
 			r.Obs = append(r.Obs, o)
 		}
+	}
+}
+
+// gv6 — tally integrity: a vote names its option by index into Options and the
+// winner is decided once, when voting has closed. So the order of Options and
+// the MajorOption field may change only on the freeze path.
+func gv6(w *World, r *Report) {
+	w.checkWriters(r, "Gv-6", pkgProp, "GovProposal", "MajorOption", map[string]string{
+		"proposal.NewGovProposal":                   "constructor (nil)",
+		"proposal.(*GovProposal).updateMajorOption": "the tally, reached only when voting has closed",
+	})
+	w.checkWriters(r, "Gv-6", pkgProp, "GovProposal", "Options", map[string]string{
+		"proposal.NewGovProposal": "constructor",
+	})
+	w.checkCallers(r, "Gv-6", fref{pkgProp, "GovProposal", "updateMajorOption"}, map[string]string{
+		"proposal.(*GovProposal).UpdateMajorOption": "locking wrapper",
+	}, 1)
+	w.checkCallers(r, "Gv-6", fref{pkgProp, "GovProposal", "UpdateMajorOption"}, map[string]string{
+		"gov.(*GovCtrler).freezeProposals$1": "the freeze scan, under EndVotingHeight < height (Gv-4 freeze:after-window)",
+	}, 1)
+	// permutations of an option list: sort calls and element stores
+	optsT := w.Named(pkgProp, "voteOption")
+	isOptSlice := func(t types.Type) bool {
+		sl, ok := t.Underlying().(*types.Slice)
+		if !ok || optsT == nil {
+			return false
+		}
+		pt, ok := sl.Elem().(*types.Pointer)
+		if !ok {
+			return false
+		}
+		n, _ := pt.Elem().(*types.Named)
+		return n != nil && n.Obj() == optsT.Obj()
+	}
+	n := 0
+	for _, fn := range w.ModuleFuncs() {
+		name := w.FName(fn)
+		for _, b := range fn.Blocks {
+			for _, in := range b.Instrs {
+				switch x := in.(type) {
+				case *ssa.Store:
+					ia, ok := x.Addr.(*ssa.IndexAddr)
+					if !ok || !isOptSlice(ia.X.Type()) {
+						continue
+					}
+					n++
+					key := "options-permuted:" + name
+					if name == "proposal.powerOrderVoteOptions.Swap" || name == "proposal.NewGovProposal" || name == "proposal.(*powerOrderVoteOptions).Swap" {
+						r.OK("Gv-6", key, "element store in the sort adaptor / constructor", site(w, in))
+					} else {
+						r.Violate("Gv-6", key, "an element of an option list is replaced outside the tally's sort adaptor: votes name their option by index", nil, site(w, in))
+					}
+				case ssa.CallInstruction:
+					f := x.Common().StaticCallee()
+					if f == nil || f.Pkg == nil || (f.Pkg.Pkg.Path() != "sort" && f.Pkg.Pkg.Path() != "slices") {
+						continue
+					}
+					perm := false
+					for _, a := range x.Common().Args {
+						a = ifaceOperand(a)
+						if isOptSlice(a.Type()) {
+							perm = true
+						}
+					}
+					if !perm {
+						continue
+					}
+					n++
+					key := "options-sorted:" + name
+					if name == "proposal.(*GovProposal).updateMajorOption" {
+						r.OK("Gv-6", key, "the only reordering of the options is the tally at freeze time", site(w, in))
+					} else {
+						r.Violate("Gv-6", key, "an option list is reordered outside the tally: recorded choices (indices) would then name other options", nil, site(w, in))
+					}
+				}
+			}
+		}
+	}
+	if n < 2 {
+		r.Undecided("Gv-6", "options-order", "the tally's sort and its Swap were not found")
 	}
 }
 
